@@ -693,3 +693,393 @@ Qed.
 
 Lemma vgen_le : forall lv s n m t v, n <= m -> vgen lv rt E s n t v = true -> vgen lv rt E s m t v = true.
 Proof. intros lv s n m t v Hle H. induction Hle; [assumption | now apply vgen_S]. Qed.
+
+(* ================================================================== results of unm are stable *)
+Lemma Forall2_merge : forall {A B} (P : nat -> A -> B -> Prop) l l',
+  (forall k a b, P k a b -> P (S k) a b) ->
+  Forall2 (fun a b => exists k, P k a b) l l' -> exists k, Forall2 (P k) l l'.
+Proof.
+  intros A B P l l' Hmono H.
+  assert (forall k k' a b, k <= k' -> P k a b -> P k' a b) as Hle
+    by (intros k k' a b Hk Hp; induction Hk; auto).
+  induction H as [|a b l l' [k1 Hab] _ [k2 IH]]; [exists 0; constructor|].
+  exists (Nat.max k1 k2). constructor; [apply (Hle k1); [lia | assumption]|].
+  eapply Forall2_imp; [|exact IH]. intros a' b' Hp. apply (Hle k2); [lia | assumption].
+Qed.
+
+Lemma Forall2_in_imp : forall {A B} (R Q : A -> B -> Prop) l l',
+  Forall2 R l l' -> (forall a b, In a l -> In b l' -> R a b -> Q a b) -> Forall2 Q l l'.
+Proof.
+  intros A B R Q l l' H. induction H as [|a b l l' Hab _ IH]; intros HQ; constructor.
+  - apply HQ; [now left | now left | assumption].
+  - apply IH. intros a' b' Ha Hb. apply HQ; now right.
+Qed.
+
+Lemma Forall2_in_l : forall {A B} (R : A -> B -> Prop) l l' y,
+  Forall2 R l l' -> In y l' -> exists x, In x l /\ R x y.
+Proof. intros. eapply Forall2_in_r; eauto. Qed.
+
+Lemma dedupe_incl : forall l seen x, In x (dedupe rt l seen) -> In x l.
+Proof.
+  induction l as [|y r IH]; cbn; intros seen x H; [contradiction|].
+  destruct (mem_pv rt y seen); [right; now apply (IH seen) | destruct H as [H|H]; [now left | right; now apply (IH _ _ H)]].
+Qed.
+
+Lemma dedupe_fresh : forall l seen, fresh_from rt (dedupe rt l seen) seen = true.
+Proof.
+  induction l as [|y r IH]; cbn; intros seen; [reflexivity|].
+  destruct (mem_pv rt y seen) eqn:Hm; [apply IH|]. cbn. rewrite Hm. cbn. apply IH.
+Qed.
+
+Lemma existsb_false_incl : forall {A} (f : A -> bool) l l',
+  (forall x, In x l' -> In x l) -> existsb f l = false -> existsb f l' = false.
+Proof.
+  intros A f l l' Hi H. destruct (existsb f l') eqn:He; [|reflexivity].
+  apply existsb_exists in He as [x [Hx Hf]]. assert (existsb f l = true) as Ht
+    by (apply existsb_exists; exists x; auto). congruence.
+Qed.
+
+Lemma dict_set_in : forall k v d kv, In kv (dict_set rt k v d) ->
+  In (fst kv) (k :: map fst d) /\ In (snd kv) (v :: map snd d).
+Proof.
+  intros k v d. induction d as [|[k' v'] r IH]; cbn; intros kv H.
+  - destruct H as [H|[]]. subst. cbn. auto.
+  - destruct (pv_pyeq rt k k').
+    + destruct H as [H|H]; [subst; cbn; auto|]. split; right; right; [now apply (in_map fst) | now apply (in_map snd)].
+    + destruct H as [H|H]; [subst; cbn; auto|]. destruct (IH _ H) as [[H1|H1] [H2|H2]]; cbn; auto.
+Qed.
+
+Lemma dict_fold_in : forall l acc kv,
+  In kv (fold_left (fun d kv => dict_set rt (fst kv) (snd kv) d) l acc) ->
+  In (fst kv) (map fst l ++ map fst acc) /\ In (snd kv) (map snd l ++ map snd acc).
+Proof.
+  induction l as [|[k v] r IH]; cbn [fold_left map app]; intros acc kv H.
+  - split; [now apply (in_map fst) | now apply (in_map snd)].
+  - destruct (IH _ _ H) as [H1 H2]. cbn [fst snd] in *. split.
+    + apply in_app_or in H1 as [H1|H1]; [right; apply in_or_app; now left|].
+      apply in_map_iff in H1 as [kv' [He Hin]]. destruct (dict_set_in _ _ _ _ Hin) as [[Hk|Hk] _].
+      * left. congruence.
+      * right. apply in_or_app. right. congruence.
+    + apply in_app_or in H2 as [H2|H2]; [right; apply in_or_app; now left|].
+      apply in_map_iff in H2 as [kv' [He Hin]]. destruct (dict_set_in _ _ _ _ Hin) as [_ [Hk|Hk]].
+      * left. congruence.
+      * right. apply in_or_app. right. congruence.
+Qed.
+
+Lemma dict_set_keeps_fresh : forall k v d seen,
+  fresh_from rt (map fst d) seen = true -> mem_pv rt k seen = false ->
+  fresh_from rt (map fst (dict_set rt k v d)) seen = true.
+Proof.
+  intros k v d. induction d as [|[k' v'] r IH]; cbn; intros seen Hf Hk.
+  - now rewrite Hk.
+  - apply andb_true_iff in Hf as [H1 H2]. destruct (pv_pyeq rt k k') eqn:Hq; cbn.
+    + now rewrite H1, H2.
+    + rewrite H1. cbn. apply IH; [assumption|]. cbn. now rewrite Hq, Hk.
+Qed.
+
+Lemma dict_fold_fresh_res : forall l acc,
+  fresh_from rt (map fst acc) [] = true ->
+  fresh_from rt (map fst (fold_left (fun d kv => dict_set rt (fst kv) (snd kv) d) l acc)) [] = true.
+Proof.
+  induction l as [|[k v] r IH]; cbn [fold_left]; intros acc H; [assumption|].
+  apply IH. now apply dict_set_keeps_fresh.
+Qed.
+
+Lemma zip_all2 : forall (q : ty -> pv -> bool) ts vs rs,
+  Forall2 (fun (tv : ty * pv) r => q (fst tv) r = true) (zip_trunc ts vs) rs -> all2 false q ts rs = true.
+Proof.
+  intros q ts. induction ts as [|t ts IH]; intros vs rs H; cbn in H.
+  - inversion H. reflexivity.
+  - destruct vs as [|x vs]; inversion H; subst; cbn; [reflexivity|].
+    cbn in *. match goal with Hq : q t _ = true |- _ => rewrite Hq end. cbn. eapply IH. eassumption.
+Qed.
+
+Lemma kw_set_in : forall f v kw gv, In gv (kw_set f v kw) -> gv = (f, v) \/ (In gv kw).
+Proof.
+  intros f v kw. induction kw as [|[g w] r IH]; cbn; intros gv H.
+  - destruct H as [H|[]]. now left.
+  - destruct (Nat.eqb f g) eqn:Hq.
+    + apply Nat.eqb_eq in Hq. subst g. destruct H as [H|H]; [left; now symmetry | right; now right].
+    + destruct H as [H|H]; [right; now left|]. destruct (IH _ H) as [H'|H']; [now left | right; now right].
+Qed.
+
+Lemma kw_set_nodup : forall f v kw, NoDup (map fst kw) -> NoDup (map fst (kw_set f v kw)).
+Proof.
+  intros f v kw. induction kw as [|[g w] r IH]; cbn; intros H.
+  - constructor; [intros [] | constructor].
+  - inversion H as [|? ? Hnot Hnd]. subst. destruct (Nat.eqb f g) eqn:Hq; cbn.
+    + now constructor.
+    + constructor; [|now apply IH]. intros Hin. apply in_map_iff in Hin as [gv [Hg Hin]].
+      destruct (kw_set_in _ _ _ _ Hin) as [He|Hr].
+      * subst gv. cbn in Hg. subst. now rewrite Nat.eqb_refl in Hq.
+      * apply Hnot. rewrite <- Hg. now apply in_map.
+Qed.
+
+Definition KwInv (u : ty -> pv -> res pv) (cd : classdef) (kw : list (nat * pv)) : Prop :=
+  NoDup (map fst kw) /\
+  forall gv, In gv kw -> exists ft x', field_ty cd (fst gv) = Some ft /\ u ft x' = Ok (snd gv).
+
+Lemma fold_inv : forall u cd kvs acc kw, fold_left (cls_step u cd) kvs acc = Ok kw ->
+  exists kw0, acc = Ok kw0 /\ (KwInv u cd kw0 -> KwInv u cd kw).
+Proof.
+  intros u cd kvs. induction kvs as [|kv r IH]; cbn [fold_left]; intros acc kw H.
+  - exists kw. auto.
+  - destruct (IH _ _ H) as [kw1 [H1 Hinv]]. unfold cls_step in H1. apply bind_ok in H1 as [kw0 [Hacc Hb]].
+    exists kw0. split; [assumption|]. intros I0. apply Hinv.
+    destruct (fst kv) as [a|f|k l|k l|c l|c l] eqn:Hk;
+      try (destruct (unhashable rt _); [discriminate | inversion Hb; now subst]).
+    destruct (field_ty cd f) as [ft|] eqn:Hft; [|inversion Hb; now subst].
+    apply bind_ok in Hb as [v' [Hu Hb]]. inversion Hb. subst kw1. destruct I0 as [Hnd Hel].
+    split; [now apply kw_set_nodup|]. intros gv Hin. destruct (kw_set_in _ _ _ _ Hin) as [He|Hr].
+    + subst gv. exists ft, (snd kv). auto.
+    + now apply Hel.
+Qed.
+
+Lemma kw_lookup_in : forall kw g v, kw_lookup g kw = Some v -> In (g, v) kw.
+Proof.
+  induction kw as [|[h w] r IH]; cbn; intros g v H; [discriminate|].
+  destruct (Nat.eqb g h) eqn:Hq; [apply Nat.eqb_eq in Hq; inversion H; subst; now left | right; now apply IH].
+Qed.
+
+Lemma fill_spec : forall fields kw l, fill_fields fields kw = Ok l ->
+  Forall2 (fun fd gv => fst gv = fname fd /\ (In (fname fd, snd gv) kw \/ fdefault fd = Some (snd gv))) fields l.
+Proof.
+  induction fields as [|fd fields IH]; cbn; intros kw l H.
+  - inversion H. constructor.
+  - destruct (kw_lookup (fname fd) kw) as [v|] eqn:Hl.
+    + apply bind_ok in H as [t [Ht H]]. inversion H. subst. constructor; [|now apply IH].
+      cbn. split; [reflexivity | left; now apply kw_lookup_in].
+    + destruct (fdefault fd) as [v|] eqn:Hd; [|discriminate].
+      apply bind_ok in H as [t [Ht H]]. inversion H. subst. constructor; [|now apply IH]. cbn. auto.
+Qed.
+
+Lemma td_ok_of : forall chk kw seen, NoDup (map fst kw) -> (forall g, In g (map fst kw) -> ~ In g seen) ->
+  (forall gv, In gv kw -> chk (fst gv) (snd gv) = true) -> td_ok chk (map pk kw) seen = true.
+Proof.
+  intros chk kw. induction kw as [|[g x] r IH]; intros seen Hnd Hdis Hchk; cbn; [reflexivity|].
+  inversion Hnd as [|? ? Hnot Hnd']. subst.
+  assert (existsb (Nat.eqb g) seen = false) as Hs.
+  { destruct (existsb (Nat.eqb g) seen) eqn:He; [|reflexivity]. apply existsb_exists in He as [h [Hh Hq]].
+    apply Nat.eqb_eq in Hq. subst h. exfalso. apply (Hdis g); [now left | assumption]. }
+  rewrite Hs. cbn. pose proof (Hchk (g, x) (or_introl eq_refl)) as Hgx. cbn in Hgx. rewrite Hgx. cbn. apply IH; [assumption | | intros gv Hin; apply Hchk; now right].
+  intros h Hh [He|Hin]; [subst; contradiction | apply (Hdis h); [now right | assumption]].
+Qed.
+
+Lemma Forall2_map_r : forall {A B C} (R : A -> C -> Prop) (g : B -> C) l l',
+  Forall2 (fun a b => R a (g b)) l l' -> Forall2 R l (map g l').
+Proof. intros A B C R g l l' H. induction H; cbn; constructor; auto. Qed.
+
+Lemma optional_pair_none : forall ts a, optional_pair ts = Some a -> In TNone ts.
+Proof.
+  intros ts a. destruct ts as [|x [|y [|z r]]]; cbn [optional_pair]; try discriminate.
+  destruct (is_none_ty y) eqn:Hy; [apply is_none_ty_eq in Hy; subst; intros _; right; now left|].
+  destruct (is_none_ty x) eqn:Hx; [|discriminate]. apply is_none_ty_eq in Hx. subst. intros _. now left.
+Qed.
+
+Section Idem.
+Hypothesis LAWS : IdemLaws rt.
+Hypothesis WF : wf_env E.
+Hypothesis DC : DefaultsConform rt E.
+Notation sg := (vgen (fixlv rt) rt E false).
+Notation oo := (optional_only E).
+
+Definition Stab (t : ty) (y : pv) : Prop := exists k, sg k t y = true.
+
+Lemma none_res : forall x y, none_u rt x = Ok y -> y = none rt.
+Proof.
+  intros x y H. destruct (pv_eqb x (none rt)) eqn:Hx.
+  - apply pv_eqb_eq in Hx. subst x. rewrite (none_pass _ (il_none _ LAWS)) in H. now inversion H.
+  - destruct (none_rejects _ (il_none _ LAWS) x Hx) as [e [He _]]. congruence.
+Qed.
+
+Lemma stab_lift : forall t t' y, (forall k v, sg (S k) t v = sg k t' v) -> Stab t' y -> Stab t y.
+Proof. intros t t' y H [k Hk]. exists (S k). now rewrite H. Qed.
+
+Section StepI.
+Variable n : nat.
+Hypothesis IH : forall T x y, oo n T = true -> unm rt E n T x = Ok y -> Stab T y.
+
+Lemma res_cls : forall c x y,
+  match E c with None => true | Some (NType t') => oo n t'
+  | Some (NClass cd) => forallb (fun fd => oo n (fty fd)) (cfields cd) end = true ->
+  unm_cls (unm rt E n) c x = Ok y ->
+  exists k, vbody (fixlv rt) false (sg k) (TName c) y = true.
+Proof.
+  intros c x y Ho H. unfold unm_cls in H. cbn [vbody]. destruct (E c) as [[cd|t']|] eqn:HE; [| |discriminate].
+  2:{ exact (IH _ _ _ Ho H). }
+  apply bind_ok in H as [d [_ H]]. apply bind_ok in H as [kvs [_ H]]. apply bind_ok in H as [kw [Hfold Hc]].
+  destruct (fold_inv _ _ _ _ _ Hfold) as [kw0 [Hk0 Hinv]]. inversion Hk0. subst kw0.
+  destruct Hinv as [Hnd Hel]; [split; [constructor | intros gv []]|].
+  pose proof (WF c cd HE) as Hnames.
+  assert (forall gv, In gv kw -> exists ft, field_ty cd (fst gv) = Some ft /\ Stab ft (snd gv)) as Hst.
+  { intros gv Hin. destruct (Hel gv Hin) as [ft [x' [Hft Hu]]]. exists ft. split; [assumption|].
+    destruct (field_ty_in _ _ _ Hft) as [fd [Hfd Heq]]. subst ft. rewrite forallb_forall in Ho.
+    exact (IH _ _ _ (Ho fd Hfd) Hu). }
+  assert (forall l, fill_fields (cfields cd) kw = Ok l ->
+            exists k, Forall2 (fun fd gv => fst gv = fname fd /\ sg k (fty fd) (snd gv) = true) (cfields cd) l) as Hfill.
+  { intros l Hl. apply fill_spec in Hl.
+    apply (Forall2_merge (fun k fd gv => fst gv = fname fd /\ sg k (fty fd) (snd gv) = true)).
+    - intros k fd gv [H1 H2]. split; [assumption | now apply vgen_S].
+    - eapply Forall2_in_imp; [exact Hl|]. intros fd gv Hfd _ [H1 H2].
+      destruct H2 as [Hin|Hdef].
+      + destruct (Hst _ Hin) as [ft [Hft [k Hk]]]. cbn in Hft, Hk.
+        rewrite (field_ty_nodup cd fd Hnames Hfd) in Hft. inversion Hft. subst ft. exists k. auto.
+      + destruct (DC c cd fd _ HE Hfd Hdef) as [k Hk]. exists k. auto. }
+  assert (forall l k, Forall2 (fun fd gv => fst gv = fname fd /\ sg k (fty fd) (snd gv) = true) (cfields cd) l ->
+            Nat.eqb c c && all2 true (fun fd gv => Nat.eqb (fname fd) (fst gv) && sg k (fty fd) (snd gv)) (cfields cd) l = true)
+    as Hobj.
+  { intros l k HF. rewrite Nat.eqb_refl. cbn. apply Forall2_all2. eapply Forall2_imp; [|exact HF].
+    intros fd gv [H1 H2]. cbn beta. rewrite H1, Nat.eqb_refl, H2. reflexivity. }
+  unfold construct_class in Hc. destruct (cflavour cd) eqn:Hfl.
+  - apply bind_ok in Hc as [l [Hl Hc]]. inversion Hc. subst y. destruct (Hfill l Hl) as [k Hk]. exists k. now apply Hobj.
+  - apply bind_ok in Hc as [l [Hl Hc]]. inversion Hc. subst y. destruct (Hfill l Hl) as [k Hk]. exists k.
+    rewrite Nat.eqb_refl. cbn. apply Forall2_all2. apply Forall2_map_r. eapply Forall2_imp; [|exact Hk].
+    intros fd gv [_ H2]. exact H2.
+  - inversion Hc. subst y.
+    destruct (ex_merge (fun k gv => match field_ty cd (fst gv) with Some ft => sg k ft (snd gv) | None => false end = true) kw)
+      as [k Hk].
+    { intros gv Hin. destruct (Hst gv Hin) as [ft [Hft [k Hk]]]. exists k. intros f Hf. rewrite Hft.
+      now apply (vgen_le _ _ k). }
+    exists k. change (map (fun fv : nat * pv => (PKey (fst fv), snd fv)) kw) with (map pk kw).
+    apply td_ok_of; [assumption | intros g _ [] |]. intros gv Hin. now apply (Hk k).
+  - apply bind_ok in Hc as [l [Hl Hc]]. inversion Hc. subst y. destruct (Hfill l Hl) as [k Hk]. exists k. now apply Hobj.
+Qed.
+End StepI.
+
+Lemma results_stable : forall n T x y, oo n T = true -> unm rt E n T x = Ok y -> Stab T y.
+Proof.
+  induction n as [|n IH]; intros T x y Ho H; [discriminate|].
+  destruct T; cbn [optional_only] in Ho.
+  - (* TLeaf *) rewrite unm_leaf in H. exists 1. cbn. unfold fixlv.
+    rewrite (leaf_idem _ LAWS _ _ _ H). apply pv_eqb_refl.
+  - (* TNone *) rewrite unm_none in H. apply none_res in H. subst. exists 1. cbn. apply pv_eqb_refl.
+  - (* TSeq *)
+    rewrite unm_seq in H. apply bind_ok in H as [d [_ H]]. apply bind_ok in H as [vs [_ H]].
+    apply bind_ok in H as [rs [Hm Hc]]. apply mapM_ok in Hm.
+    destruct (ex_merge (fun k r => sg k T r = true) rs) as [m Hmm].
+    { intros r Hr. destruct (Forall2_in_l _ _ _ _ Hm Hr) as [x' [_ Hu]]. destruct (IH _ _ _ Ho Hu) as [k0 Hk0].
+      exists k0. intros f Hf. now apply (vgen_le _ _ k0). }
+    exists (S m). cbn [vgen]. unfold construct_seq in Hc.
+    destruct k; try (inversion Hc; subst y; cbn [seqkind_eqb set_ok andb]; rewrite andb_true_r;
+                     apply forallb_forall; intros r Hr; now apply (Hmm m));
+      (destruct (existsb (unhashable rt) rs) eqn:Hh; [discriminate|]; inversion Hc; subst y;
+       cbn [seqkind_eqb set_ok andb]; apply andb_true_iff; split;
+       [apply forallb_forall; intros r Hr; apply (Hmm m); [lia | now apply dedupe_incl in Hr]
+       |unfold hashable_all; rewrite (existsb_false_incl _ rs _ (dedupe_incl rs []) Hh); cbn; apply dedupe_fresh]).
+  - (* TMap *)
+    rewrite unm_map in H. apply andb_true_iff in Ho as [Ho1 Ho2].
+    apply bind_ok in H as [d [_ H]]. apply bind_ok in H as [kvs [_ H]].
+    apply bind_ok in H as [rs [Hm Hc]]. apply mapM_ok in Hm.
+    destruct (ex_merge (fun k r => sg k T1 (fst r) = true /\ sg k T2 (snd r) = true) rs) as [m Hmm].
+    { intros r Hr. destruct (Forall2_in_l _ _ _ _ Hm Hr) as [kv [_ Hu]]. unfold map_step in Hu.
+      apply bind_ok in Hu as [k' [Hu1 Hu]]. apply bind_ok in Hu as [v' [Hu2 Hu]]. inversion Hu. subst r.
+      destruct (IH _ _ _ Ho1 Hu1) as [k1 Hk1]. destruct (IH _ _ _ Ho2 Hu2) as [k2 Hk2].
+      exists (Nat.max k1 k2). intros f Hf. cbn [fst snd].
+      split; [apply (vgen_le _ _ k1) | apply (vgen_le _ _ k2)]; try assumption; lia. }
+    unfold construct_map in Hc. destruct (existsb (fun kv => unhashable rt (fst kv)) rs) eqn:Hh; [discriminate|].
+    inversion Hc. subst y. rewrite existsb_map_fst in Hh.
+    assert (forall kv, In kv (dict_of rt rs) -> In (fst kv) (map fst rs) /\ In (snd kv) (map snd rs)) as Hin.
+    { intros kv Hkv. unfold dict_of in Hkv. apply dict_fold_in in Hkv. cbn in Hkv. now rewrite !app_nil_r in Hkv. }
+    exists (S m). cbn [vgen]. rewrite dictkind_eqb_refl. cbn [andb]. apply andb_true_iff. split.
+    + apply forallb_forall. intros kv Hkv. destruct (Hin kv Hkv) as [H1 H2].
+      apply in_map_iff in H1 as [r1 [He1 Hr1]]. apply in_map_iff in H2 as [r2 [He2 Hr2]].
+      destruct (Hmm m (le_n m) r1 Hr1) as [Ha _]. destruct (Hmm m (le_n m) r2 Hr2) as [_ Hb].
+      rewrite <- He1, <- He2. now rewrite Ha, Hb.
+    + unfold keys_ok, hashable_all. apply andb_true_iff. split.
+      * rewrite (existsb_false_incl _ (map fst rs) _ ); [reflexivity | | assumption].
+        intros k' Hk'. apply in_map_iff in Hk' as [kv [He Hkv]]. subst k'. now apply Hin.
+      * unfold dict_of. now apply dict_fold_fresh_res.
+  - (* TTuple *)
+    rewrite unm_tuple in H. apply bind_ok in H as [d [_ H]]. apply bind_ok in H as [vs [_ H]].
+    apply bind_ok in H as [rs [Hm Hc]]. inversion Hc. subst y. apply mapM_ok in Hm.
+    destruct (Forall2_merge (fun k (tv : ty * pv) r => sg k (fst tv) r = true) (zip_trunc ts vs) rs) as [k Hk].
+    { intros k tv r. apply vgen_S. }
+    { eapply Forall2_in_imp; [exact Hm|]. intros tv r Htv _ Hu. rewrite forallb_forall in Ho.
+      assert (In (fst tv) ts) as Hin.
+      { clear - Htv. revert vs Htv. induction ts as [|t ts' IHt]; intros [|v vs] Hi; cbn in Hi; try contradiction.
+        destruct Hi as [Hi|Hi]; [subst; now left | right; now apply (IHt vs)]. }
+      exact (IH _ _ _ (Ho _ Hin) Hu). }
+    exists (S k). cbn [vgen]. now apply (zip_all2 _ _ vs).
+  - (* TUnion *)
+    destruct (optional_pair ts) as [a|] eqn:Hop; [|discriminate].
+    destruct (optional_pair_spec _ _ Hop) as [Hstack [Hina _]]. pose proof (optional_pair_none _ _ Hop) as Hinn.
+    rewrite unm_union, Hstack in H. cbn [map first_ok] in H.
+    destruct (unm rt E n TNone x) as [y'|e| |] eqn:H1; try discriminate.
+    + inversion H. subst y'. destruct n; [discriminate|]. rewrite unm_none in H1. apply none_res in H1. subst y.
+      exists 2. cbn [vgen]. apply existsb_exists. exists TNone. split; [assumption|]. cbn. apply pv_eqb_refl.
+    + destruct (suppressed rt e); [|discriminate].
+      destruct (unm rt E n a x) as [y'|e'| |] eqn:H2; try discriminate.
+      * inversion H. subst y'. destruct (IH _ _ _ Ho H2) as [k Hk]. exists (S k). cbn [vgen].
+        apply existsb_exists. exists a. auto.
+      * destruct (suppressed rt e'); discriminate.
+  - (* TName *) rewrite unm_name in H. destruct (res_cls n IH _ _ _ Ho H) as [k Hk]. exists (S k). now rewrite vgen_S_eq.
+  - (* TRef *) rewrite unm_ref in H. destruct (res_cls n IH _ _ _ Ho H) as [k Hk]. exists (S k). now rewrite vgen_S_eq.
+  - (* TRefLeaf *) rewrite unm_refleaf in H. exists 1. cbn. unfold fixlv.
+    rewrite (leaf_idem _ LAWS _ _ _ H). apply pv_eqb_refl.
+  - (* TRefTo *) rewrite unm_refto in H. apply (stab_lift _ T); [reflexivity | now apply (IH _ x)].
+  - (* TNewType *) rewrite unm_newtype in H. apply (stab_lift _ T); [reflexivity | now apply (IH _ x)].
+  - (* TAlias *) rewrite unm_alias in H. apply (stab_lift _ T); [reflexivity | now apply (IH _ x)].
+  - (* TAliasStr *) rewrite unm_aliasstr in H. destruct (res_cls n IH _ _ _ Ho H) as [k Hk]. exists (S k). now rewrite vgen_S_eq.
+  - (* TFinal *) rewrite unm_final in H. apply (stab_lift _ T); [reflexivity | now apply (IH _ x)].
+  - (* TClassVar *) rewrite unm_classvar in H. apply (stab_lift _ T); [reflexivity | now apply (IH _ x)].
+Qed.
+End Idem.
+End Sem.
+
+(* ================================================================== the statements used by Props/C13.v *)
+Theorem passthrough_stable : forall rt E lv, PassLaws rt lv -> wf_env E ->
+  forall n T v, optional_only E n T = true -> stable lv rt E n T v = true ->
+  exists m, forall fuel, m <= fuel -> unm rt E fuel T v = Ok v.
+Proof. intros rt E lv L W n T v Ho Hv. exact (pass_stable rt E lv L W n T v Ho Hv). Qed.
+
+Theorem passthrough : forall rt E lv, PassLaws rt lv -> wf_env E ->
+  forall n T v, optional_only E n T = true -> valid lv rt E n T v = true ->
+  exists m, forall fuel, m <= fuel -> unm rt E fuel T v = Ok v.
+Proof.
+  intros rt E lv L W n T v Ho Hv. apply (passthrough_stable rt E lv L W n T v Ho). now apply vgen_weak.
+Qed.
+
+Theorem valid_stable : forall rt E lv n T v, valid lv rt E n T v = true -> stable lv rt E n T v = true.
+Proof. intros. now apply vgen_weak. Qed.
+
+Theorem stable_fuel_mono : forall rt E lv n m T v, n <= m -> stable lv rt E n T v = true -> stable lv rt E m T v = true.
+Proof. intros rt E lv n m T v. apply vgen_le. Qed.
+
+Lemma fixlv_laws : forall rt, IdemLaws rt -> PassLaws rt (fixlv rt).
+Proof.
+  intros rt L. split; [exact (il_none _ L)|]. intros s v H. unfold fixlv in H.
+  destruct (leaf_u rt s v) as [y| | |] eqn:Hu; try discriminate. apply pv_eqb_eq in H. now subst.
+Qed.
+
+Theorem unm_results_stable : forall rt E, IdemLaws rt -> wf_env E -> DefaultsConform rt E ->
+  forall n T x y, optional_only E n T = true -> unm rt E n T x = Ok y ->
+  exists k, stable (fixlv rt) rt E k T y = true.
+Proof. intros rt E L W D n T x y Ho H. exact (results_stable rt E L W D n T x y Ho H). Qed.
+
+Theorem idempotent : forall rt E, IdemLaws rt -> wf_env E -> DefaultsConform rt E ->
+  forall T, (forall k, optional_only E k T = true) ->
+  forall n x y, unm rt E n T x = Ok y ->
+  exists m, forall fuel, m <= fuel -> unm rt E fuel T y = Ok y.
+Proof.
+  intros rt E L W D T Ho n x y H.
+  destruct (unm_results_stable rt E L W D n T x y (Ho n) H) as [k Hk].
+  exact (passthrough_stable rt E (fixlv rt) (fixlv_laws rt L) W k T y (Ho k) Hk).
+Qed.
+
+(* the computable guards are sound *)
+Lemma defaults_okb_sound : forall rt E k cs, env_dom E cs -> defaults_okb rt E k cs = true -> DefaultsConform rt E.
+Proof.
+  intros rt E k cs Hd Hb c cd fd d HE Hfd Hdef. unfold defaults_okb in Hb. rewrite forallb_forall in Hb.
+  assert (In c cs) as Hc by (apply Hd; congruence). specialize (Hb c Hc). rewrite HE in Hb.
+  rewrite forallb_forall in Hb. specialize (Hb fd Hfd). rewrite Hdef in Hb. now exists k.
+Qed.
+
+Lemma nodup_namesb_sound : forall E cs, env_dom E cs -> nodup_namesb E cs = true -> wf_env E.
+Proof.
+  intros E cs Hd Hb c cd HE. unfold nodup_namesb in Hb. rewrite forallb_forall in Hb.
+  assert (In c cs) as Hc by (apply Hd; congruence). specialize (Hb c Hc). rewrite HE in Hb.
+  revert Hb. generalize (map fname (cfields cd)) as l. induction l as [|x r IH]; intros H; [constructor|].
+  apply andb_true_iff in H as [H1 H2]. apply negb_true_iff in H1. constructor; [|now apply IH].
+  intros Hin. assert (existsb (Nat.eqb x) r = true) as Ht
+    by (apply existsb_exists; exists x; split; [assumption | apply Nat.eqb_refl]). congruence.
+Qed.
